@@ -45,6 +45,12 @@ type Node struct {
 
 	// num
 	Val float64 `json:"val,omitempty"`
+
+	// Paren: the node is written inside (redundant) parentheses
+	Paren bool `json:"paren,omitempty"`
+
+	// AbsentLbl marks, per matcher, a label that no series of the metric family carries
+	AbsentLbl []bool `json:"absent_label,omitempty"`
 }
 
 func durStr(ms int64) string {
@@ -93,6 +99,11 @@ func isCmp(op string) bool {
 
 // String renders PromQL text.
 func (n *Node) String() string {
+	if n.Paren {
+		k := *n
+		k.Paren = false
+		return "(" + k.String() + ")"
+	}
 	switch n.Kind {
 	case "sel":
 		return n.selString(false)
@@ -118,7 +129,14 @@ func (n *Node) String() string {
 		if n.Match != "" {
 			op += " " + n.Match + "(" + strings.Join(n.MatchLbl, ", ") + ")"
 		}
-		return fmt.Sprintf("(%s) %s (%s)", n.L.String(), op, n.R.String())
+		l, r := n.L.String(), n.R.String()
+		if n.L.Kind == "bin" && !n.L.Paren {
+			l = "(" + l + ")"
+		}
+		if n.R.Kind == "bin" && !n.R.Paren {
+			r = "(" + r + ")"
+		}
+		return fmt.Sprintf("%s %s %s", l, op, r)
 	case "num":
 		return numStr(n.Val)
 	}
